@@ -2119,3 +2119,49 @@ Proof.
   intros l ent Hg c Hc feas hfeas ls Hf Hh. apply filter_In in Hc. destruct Hc as [Hc He].
   rewrite forallb_forall in Hg. apply pcase_sound; auto.
 Qed.
+
+(* ---- residue constructors: dedupe after the alias rename -------------------------- *)
+
+Lemma init_fold_spec : forall alt recs acc, NoDup acc ->
+  NoDup (fold_left (init_step alt) recs acc) /\
+  fold_left (init_step alt) recs acc = (acc ++ first_occ acc (map (canon alt) recs))%list /\
+  (forall x, In x (fold_left (init_step alt) recs acc) <-> In x acc \/ In x (map (canon alt) recs)).
+Proof.
+  induction recs as [|n recs IH]; intros acc Hn; cbn [fold_left map first_occ].
+  - rewrite app_nil_r. split; auto. split; auto. intros x. cbn. tauto.
+  - unfold init_step at 2 4 6. cbv zeta. destruct (mem (canon alt n) acc) eqn:E.
+    + destruct (IH acc Hn) as [I1 [I2 I3]]. split; auto. split; auto.
+      intros x. rewrite I3. cbn. split; [tauto|]. intros [H|[<-|H]]; auto. left. apply mem_In. auto.
+    + assert (Hn' : NoDup (acc ++ [canon alt n])) by (apply NoDup_app_last; auto; apply mem_false_notin; auto).
+      destruct (IH _ Hn') as [I1 [I2 I3]]. split; auto. split.
+      * rewrite I2. rewrite <- app_assoc. reflexivity.
+      * intros x. rewrite I3, in_app_iff. cbn. tauto.
+Qed.
+
+Theorem residue_init_nodup : forall alt recs,
+  NoDup (residue_init alt recs) /\
+  residue_init alt recs = first_occ [] (map (canon alt) recs) /\
+  (forall x, In x (residue_init alt recs) <-> In x (map (canon alt) recs)).
+Proof.
+  intros alt recs. destruct (init_fold_spec alt recs [] (NoDup_nil _)) as [H1 [H2 H3]].
+  unfold residue_init. split; auto. split; auto. intros x. rewrite H3. cbn. tauto.
+Qed.
+
+Lemma res_init_fold : forall alt recs s acc, WFres s -> res_names s = acc ->
+  WFres (fold_left (res_init_step alt) recs s) /\
+  res_names (fold_left (res_init_step alt) recs s) = fold_left (init_step alt) recs acc.
+Proof.
+  induction recs as [|n recs IH]; intros s acc Hw Hn; cbn [fold_left]; auto.
+  unfold res_init_step at 2 4, init_step at 2. cbv zeta. destruct (mem (canon alt n) acc) eqn:E.
+  - assert (Hh : res_has (canon alt n) s = true) by (apply WFres_has; auto; rewrite Hn; apply mem_In; auto).
+    rewrite Hh. apply IH; auto.
+  - assert (Hni : ~ In (canon alt n) (res_names s)) by (rewrite Hn; apply mem_false_notin; auto).
+    assert (Hh : res_has (canon alt n) s = false).
+    { destruct (res_has (canon alt n) s) eqn:E2; auto. apply WFres_has in E2; auto. contradiction. }
+    rewrite Hh. destruct (create_ok s (canon alt n) Hw Hni) as [Hw' Hn']. apply IH; auto. rewrite Hn', Hn. reflexivity.
+Qed.
+
+(* the object-list + dict constructor builds a consistent residue with exactly those names *)
+Theorem res_init_agrees : forall alt recs,
+  WFres (res_init alt recs) /\ res_names (res_init alt recs) = residue_init alt recs.
+Proof. intros. apply (res_init_fold alt recs res_empty []); [apply WFres_empty|reflexivity]. Qed.
